@@ -543,19 +543,70 @@ func ruleC20_4(c *Ctx) {
 		}
 		if handler == "cmd.sign" {
 			f := c.lookup(handler)
-			ld := firstCall(f, "(*in_toto.Key).LoadKeyDefaults")
-			ok := ld != nil && org(ld.Common().Args[0]) == "global(cmd.key)" && org(ld.Common().Args[1]) == c.fv("key", "runCmd", "recordCmd", "signCmd")
-			if ok {
-				for _, k := range allCalls(f) {
-					kn := calleeName(k)
-					if kn == "iface:in_toto.Metadata.Sign" || kn == "iface:in_toto.Metadata.VerifySignature" {
-						if !c.okCallAt(ld, k.Block()) {
-							ok = false
+			keyFlag := c.fv("key", "runCmd", "recordCmd", "signCmd")
+			var ld ssa.CallInstruction = firstCall(f, "(*in_toto.Key).LoadKeyDefaults")
+			ok := ld != nil && org(ld.Common().Args[0]) == "global(cmd.key)" && org(ld.Common().Args[1]) == keyFlag
+			why := "sign uses the key variable without a successful load of --key"
+			if ld == nil {
+				// key = loadHelper(keyPath, ...): an unexported helper that loads into a local Key and hands it back
+				for _, b := range f.Blocks {
+					for _, in := range b.Instrs {
+						st, isSt := in.(*ssa.Store)
+						if !isSt || org(st.Addr) != "global(cmd.key)" {
+							continue
+						}
+						hc, idx := producer(st.Val, st)
+						if hc == nil || idx != 0 {
+							continue
+						}
+						h := hc.Common().StaticCallee()
+						if h == nil || h.Blocks == nil || h.Pkg != f.Pkg || h.Object() == nil || h.Object().Exported() {
+							continue
+						}
+						for _, inner := range callsIn(h, "(*in_toto.Key).LoadKeyDefaults") {
+							pp, isP := resolve(inner.Common().Args[1], inner).(*ssa.Parameter)
+							al, isAl := inner.Common().Args[0].(*ssa.Alloc)
+							if !isP || !isAl || pp.Parent() != h || org(hc.Common().Args[paramIndex(pp)]) != keyFlag || !c.helperGuarantees(h, inner) {
+								continue
+							}
+							// success returns hand back the loaded key; every other return fails with the loader's own error
+							good, extra := true, ""
+							ei := errIndex(h)
+							for _, r := range returnsOf(h) {
+								if c.mayBeNilErr(r.Results[ei], r.Block(), 0) {
+									if u, isU := r.Results[0].(*ssa.UnOp); !isU || u.X != ssa.Value(al) {
+										good = false
+									}
+									continue
+								}
+								if pc, _ := producer(r.Results[ei], r); pc != inner {
+									if !derives(r.Results[ei], func(v ssa.Value) bool { return v == errResult(inner) }, true) {
+										extra = c.pos(r.Pos())
+									}
+								}
+							}
+							if good && extra == "" {
+								ld, ok = hc, true
+							} else if good {
+								why = "the key helper " + fname(h) + " refuses a key that LoadKeyDefaults accepted (return at " + extra + "): sign --verify must accept a public key or certificate, it only needs to verify"
+							}
 						}
 					}
 				}
 			}
-			c.check(ok, R, handler, "the key is loaded from --key before it is used", f.Pos(), "LoadKeyDefaults(keyPath) ok dominates Sign / VerifySignature", "sign uses the key variable without a successful load of --key")
+			if ok {
+				for _, k := range allCalls(f) {
+					kn := calleeName(k)
+					uses := kn == "iface:in_toto.Metadata.Sign" || kn == "iface:in_toto.Metadata.VerifySignature"
+					if g := k.Common().StaticCallee(); !uses && g != nil && g.Blocks != nil && g.Pkg == f.Pkg && g != f {
+						uses = len(callsIn(g, "iface:in_toto.Metadata.Sign", "iface:in_toto.Metadata.VerifySignature")) > 0
+					}
+					if uses && !c.okCallAt(ld, k.Block()) {
+						ok = false
+					}
+				}
+			}
+			c.check(ok, R, handler, "the key is loaded from --key before it is used", f.Pos(), "LoadKeyDefaults(keyPath) ok dominates Sign / VerifySignature", why)
 			continue
 		}
 		// PreRunE on the command or PersistentPreRunE on an ancestor
